@@ -936,7 +936,29 @@ def fix_prog(p):
     return [("expr", T(s[1])) if s[0] == "expr" else ("assign", s[1], T(s[2])) for s in p]
 
 
+def value_pairs():
+    """minimal text and fully parenthesised text evaluate to the same value, through execute(): where assignment meets
+    `to`, with many parenthesised groups in one input (any number, at any depth the recursion allows), with other
+    whitespace characters between the tokens"""
+    prs = [("x = 5 m to cm; x", "x = ((5 m) to cm); (x)"), ("pi = 2 hours to minutes; pi", "pi = ((2 hours) to minutes); (pi)"),
+           ("m = 2 kg to g; m + 1", "m = ((2 kg) to g); ((m) + (1))"), ("x = 1 + 2 m to cm", "(x = ((1) + (2 m))) to cm".replace("(x = ", "x = (").replace(") to cm", " to cm)")),
+           ("a = 3 < 4; a", "a = ((3) < (4)); (a)"), ("-3..-1", "(-3)..(-1)"), ("2..+4", "(2)..(+4)"), ("{x*x : x in -2..-1}", "{((x)*(x)) : x in ((-2)..(-1))}"),
+           ("1 ± 0.1 * 2", "(1) ± ((0.1) * (2))"), ("12 ± 6 / 3", "(12) ± ((6) / (3))"), ("2 ^ 3 ^ 2", "((2) ^ (3)) ^ (2)"), ("-2 ^ 2", "((-2)) ^ (2)"),
+           ("2 * 3 !", "(2) * ((3)!)"), ("1 < 2 == 1", "((1) < (2)) == (1)".replace("((1) < (2)) == (1)", "1 < 2 == 1"))]
+    n = 45
+    groups = " + ".join("(%d)*(%d)" % (k, k + 1) for k in range(1, n + 1))
+    prs.append((groups, str(sum(k * (k + 1) for k in range(1, n + 1)))))
+    prs.append(("; ".join(["v1 = (1)"] + ["v%d = (v%d) + 1" % (k, k - 1) for k in range(2, 61)]) + "; v60", "60"))
+    prs.append(("sum({%s})" % ", ".join("(%d)" % k for k in range(60)), str(sum(range(60)))))
+    prs.append(("(" * 30 + "7" + ")" * 30, "7"))
+    for t in ("3 m s", "{k : k in 1..3}", "250 cm to m", "h = 2; h m", "2 in {1, 2}", "f = 2; f (3)", "1 to m", "sin (1) + cos (1)"):
+        for ws in ("\u00a0", "\u202f", "\t", "   ", "\u2009"):
+            prs.append((t.replace(" ", ws), t))
+    return prs
+
+
 def run(ctx):
+    C.seam_check(ctx["report"], ctx["rundir"], "C02", pairs=value_pairs())
     rep, tier, seed = ctx["report"], ctx["tier"], ctx["seed"]
     rng = random.Random(seed * 7919 + 2)
     stats = dict(seq=0, seq_ok=0, seq_mismatch=0, seq_blocks_differ=0, model_port_mismatch=0, trees=0, hung=0, not_wf=0, nontrivial=set(), heads={}, evaluated=0,
